@@ -27,6 +27,12 @@ theorem C09_macpayload_total (data : Bytes) : Checked.macDec data ≠ panic ∧ 
 theorem C09_fhdr_total (data : Bytes) : fhdrDec data ≠ panic ∧ fhdrDec data = FHDR.dec {} data :=
   ⟨fhdrDec_never_panics data, fhdrDec_eq data⟩
 
+/-- CFList and join-accept payload (the bytes a device decrypts): `data[15]`, `data[:15]`, `data[i*3+k]`, `data[i*2 : i*2+2]`,
+`data[0:3]`, `data[3:6]`, `data[6:10]`, `data[10:11]`, `data[11]`, `data[12:]` -/
+theorem C09_joinaccept_total (data : Bytes) :
+    joinAcceptDec data ≠ panic ∧ joinAcceptDec data = JoinAccept.dec {} data ∧ cfListDec data ≠ panic ∧ cfListDec data = CFList.dec data :=
+  ⟨joinAccept_never_panics data, joinAcceptDec_eq data, cfList_never_panics data, cfListDec_eq data⟩
+
 /-- MAC-command stream loop (`Bytes[i]`, `Bytes[i:i+1+plLen]`, `i += plLen`) for every registry with non-negative sizes
 (what RegisterProprietaryMACCommand guarantees since the repair c07-register-negative-size) -/
 theorem C09_stream_total (reg : Registry) (hreg : RegNonneg reg) (up : Bool) (data : Bytes) : Checked.stream reg up data ≠ panic :=
